@@ -113,6 +113,16 @@ theorem C10_idem (T : Tables) (h : TablesOK T = true) (C : Codec B V) (L : Laws 
   · exact (u2 l hl).trans (u1 l hl)
   · rw [C10_noaccess]; rfl
 
+/-- **a second save is byte-identical.** If moreover every writer builds its own lumps from scratch
+(`Canon`), then re-opening the saved lumps, reading the same views and saving again reproduces every
+lump byte for byte. -/
+theorem C10_idem_bytes (T : Tables) (h : TablesOK T = true) (C : Codec B V) (L : Laws T C) (hcan : Canon T C)
+    (raw₀ : Nat → B) (E : Nat → V) (hE : IsEnv T C raw₀ E) (xs : List Nat) (hxs : ∀ u ∈ xs, u < T.n) :
+    (save T C (accesses T C xs (init (V := V) (save T C (accesses T C xs (init raw₀))).raw))).raw
+      = (save T C (accesses T C xs (init raw₀))).raw := by
+  obtain ⟨h1, h2, h3, h4, h5, h6⟩ := ok_parts h
+  exact funext (idem_bytes T C h1 h2 h3 h5 h4 h6 L hcan raw₀ E hE xs hxs)
+
 /-- The theorems at the tables of the current source. -/
 theorem C10_flush_current (C : Codec B V) (raw₀ : Nat → B) (xs : List Nat) (hxs : ∀ u ∈ xs, u < 21) :
     (∀ v, (save Gen.Bsp.tables C (accesses Gen.Bsp.tables C xs (init raw₀))).parsed v = none) ∧
@@ -134,6 +144,9 @@ theorem mainCodec_laws (T : Tables) (hwf : WF T = true) : Laws T (mainCodec T) w
   roundtrip := fun v hv raw env raw₁ _ => by
     simp [mainCodec, applyWr, main_mem_clears T hwf v hv]
   aux_stable := fun v _ raw env raw₁ _ l _ hnc => by simp [mainCodec, hnc]
+
+theorem mainCodec_canon (T : Tables) : Canon T (mainCodec T) :=
+  fun v _ x env raw raw' l hl => by simp [mainCodec, hl]
 
 /-- the hypotheses of `C10_content` are satisfiable at the current tables, with a non-constant file. -/
 example : Laws Gen.Bsp.tables (mainCodec Gen.Bsp.tables) ∧
